@@ -41,6 +41,9 @@ pub struct Cfg {
     restrict: u8, // 0 none, 1 matching apid, 2 matching apid+ctid, 3 non matching apid
     auto_save: u8, // 0 none, 1 "*", 2 "*.bin", 3 "f0*"
     preexisting: bool,
+    /// a dangling symbolic link named like the first transfer's file waits in the auto save directory, pointing outside of it
+    #[serde(default)]
+    symlink: bool,
 }
 #[derive(Clone, Debug, Serialize, Deserialize)]
 pub struct Case {
@@ -170,7 +173,12 @@ pub fn build_xfer_serial(i: usize, x: &Xfer, fault: Option<&Fault>, serial: u64)
     };
     psize = std::cmp::max(psize, (len + 199) / 200); // at most 200 packages
     psize = std::cmp::max(1, psize);
-    let pkgs: Vec<Vec<u8>> = content.chunks(psize).map(|c| c.to_vec()).collect();
+    let mut pkgs: Vec<Vec<u8>> = content.chunks(psize).map(|c| c.to_vec()).collect();
+    if pkgs.is_empty() {
+        // an empty file travels as one announced package without data (dlt_user_log_file_packagesCount gives 1 for sizes below the buffer size)
+        pkgs.push(vec![]);
+        psize = 1 + (x.pkg_sel as usize % 2048);
+    }
     let n = pkgs.len();
     let name = file_name(x.name_kind, i);
     let w = x.int_width;
@@ -232,6 +240,8 @@ pub fn build_xfer_serial(i: usize, x: &Xfer, fault: Option<&Fault>, serial: u64)
                 let ki = pick(*k, n);
                 let mut data = pkgs[ki].clone();
                 let d = if *d == 0 { 1 } else { *d };
+                // (nothing can be cut from an empty package)
+                let d = if data.is_empty() { d.saturating_abs() } else { d };
                 if d > 0 {
                     data.extend(std::iter::repeat(0x5a).take(d as usize));
                 } else {
@@ -340,6 +350,16 @@ fn check_in(c: &Case, rep: &mut Rep, outer: &Path, auto: &Path) -> Result<(), St
     if c.cfg.preexisting {
         std::fs::write(&pre_name, b"old content").map_err(|e| e.to_string())?;
     }
+    if c.cfg.symlink && glob.is_some() {
+        if let Some(base) = Path::new(&built[0].name).file_name() {
+            let link = auto.join(base);
+            if std::fs::symlink_metadata(&link).is_err() {
+                std::os::unix::fs::symlink("../outside_of_auto.bin", &link).map_err(|e| e.to_string())?;
+                rep.label("dangling_symlink_in_auto_save_dir");
+            }
+        }
+    }
+    rep.label_if(built.iter().any(|b| b.content.is_empty()), "empty_file");
     let watched = outer.ancestors().nth(5).unwrap().to_path_buf();
     let before = snapshot(&watched);
     let mut plugin = FileTransferPlugin::from_json(cfg.as_object().unwrap()).map_err(|e| format!("plugin config refused: {}", e))?;
@@ -483,7 +503,7 @@ fn check_in(c: &Case, rep: &mut Rep, outer: &Path, auto: &Path) -> Result<(), St
 pub fn xfer_strategy() -> impl Strategy<Value = Xfer> {
     (
         (0u8..3, 1u32..4, 0u8..8),
-        (prop::collection::vec(any::<u8>(), 1..24), prop_oneof![4 => 1usize..40, 3 => 1usize..2000, 1 => 1usize..20000]),
+        (prop::collection::vec(any::<u8>(), 1..24), prop_oneof![1 => Just(0usize), 8 => 1usize..40, 6 => 1usize..2000, 2 => 1usize..20000]),
         (any::<u16>(), 0u8..4, 0u8..3, any::<bool>(), any::<bool>()),
     )
         .prop_map(|((ecu, lifecycle, name_kind), (chunk, len), (pkg_sel, pkg_mode, int_width, pkgnr_signed, be))| Xfer { ecu, lifecycle, name_kind, content: Fill { len, chunk }, pkg_sel, pkg_mode, int_width, pkgnr_signed, be })
@@ -500,14 +520,14 @@ pub fn def(tier: Tier) -> PropertyDef {
         Just(Fault::DropFlfi),
         any::<u16>().prop_map(Fault::DropFlstAnd),
     ];
-    let cfg = (prop::bool::weighted(0.7), any::<bool>(), prop_oneof![4 => Just(0u8), 2 => Just(1u8), 2 => Just(2u8), 1 => Just(3u8)], 0u8..4, any::<bool>()).prop_map(|(allow_save, keep_flda, restrict, auto_save, preexisting)| Cfg { allow_save, keep_flda, restrict, auto_save, preexisting });
+    let cfg = (prop::bool::weighted(0.7), any::<bool>(), prop_oneof![4 => Just(0u8), 2 => Just(1u8), 2 => Just(2u8), 1 => Just(3u8)], 0u8..4, any::<bool>(), prop::bool::weighted(0.15)).prop_map(|(allow_save, keep_flda, restrict, auto_save, preexisting, symlink)| Cfg { allow_save, keep_flda, restrict, auto_save, preexisting, symlink });
     let case = (prop::collection::vec(xfer, 1..5), prop::option::weighted(0.6, (any::<u16>(), fault)), prop::collection::vec(any::<u16>(), 0..24), cfg).prop_map(|(xfers, fault, choices, cfg)| Case { xfers, fault, choices, cfg });
     PropertyDef {
         id: "C17",
-        rule: "1..4 transfers {ecu, lifecycle, file name (plain, with directories, ../, absolute, duplicate, spaces), content 1..20000 bytes, package size (1..64, = size, fraction, half+1), integer widths 16/32/64, signed/unsigned package numbers, both byte orders} as FLST/FLDA/FLFI verbose messages, interleaved with each other and unrelated traffic; at most one fault (drop/duplicate/swap/resize a package, drop FLST, drop FLFI); plugin configs allowSave, keepFLDA, apid/ctid restriction, auto save (globs) with pre-existing file. Oracle: plugin state tree (complete iff all packages arrived in order), save command and auto save produce byte-identical files, faults never complete, directory snapshots (only autoSavePath/<basename> appears, nothing overwritten). Non-trivial: last package shorter, >=2 interleaved transfers or a fault.",
+        rule: "1..4 transfers {ecu, lifecycle, file name (plain, with directories, ../, absolute, duplicate, spaces), content 0..20000 bytes (an empty file is one announced package without data), package size (1..64, = size, fraction, half+1), integer widths 16/32/64, signed/unsigned package numbers, both byte orders} as FLST/FLDA/FLFI verbose messages, interleaved with each other and unrelated traffic; at most one fault (drop/duplicate/swap/resize a package, drop FLST, drop FLFI); plugin configs allowSave, keepFLDA, apid/ctid restriction, auto save (globs) with pre-existing file or a dangling symbolic link of the expected name pointing outside. Oracle: plugin state tree (complete iff all packages arrived in order), save command and auto save produce byte-identical files, faults never complete, directory snapshots (only autoSavePath/<basename> appears, nothing overwritten). Non-trivial: last package shorter, >=2 interleaved transfers or a fault.",
         assumptions: vec!["a transfer whose announcement is missing may or may not be completed; if it is, its content must be identical", "glob crate trusted for the expected auto save selection"],
         subs: vec![sub("transfers", tier.pick(40_000, 800_000), case, check)
-            .rates(&[("ge2_transfers", 0.4), ("fault", 0.4), ("fault_dup", 0.03), ("fault_resize", 0.03), ("fault_swap", 0.03), ("last_package_shorter", 0.2), ("auto_save", 0.4)])
+            .rates(&[("ge2_transfers", 0.4), ("fault", 0.4), ("fault_dup", 0.03), ("fault_resize", 0.03), ("fault_swap", 0.03), ("last_package_shorter", 0.2), ("auto_save", 0.4), ("empty_file", 0.05), ("dangling_symlink_in_auto_save_dir", 0.05)])
             .boxed()],
         workers: 16,
     }
